@@ -1135,6 +1135,7 @@ class Interp:
     # ------------------------------------------------------------------ events
     def emit(self, st, name: str, node=None, **data) -> Event:
         ev = Event(name, data, self.site(node) if node is not None else "")
+        self.eng.seen_events.add(name.split(".", 1)[0].split(":", 1)[0])
         st.trace.append(ev)
         self.fire_callsite(st, ev)
         return ev
